@@ -20,7 +20,7 @@ RULE = ("schemas of depth <= 4 and width <= 6 with identifier keys whose option 
         "and mutated states: the state afterwards must equal 'supplied and not ignored options set to their normal "
         "form and marked user-defined, every other value and flag untouched'; non-trivial = >= 4 paths and >= 1 "
         "command line applied; distinct = distinct (schema, state, command line)")
-REQUIRED = ("mode_helper_replaces_an_earlier_field", "rejected_command_lines_applied_again", "schemas_with_names_of_schema_methods_or_odd_underscores", "schema_grown_after_enumeration", "paths_checked", "dotted_assignments_checked", "parsers_compared", "overrides_compared", "argv:empty",
+REQUIRED = ("parser_from_schema_method", "sections_nested_in_a_section_of_the_same_name", "mode_helper_replaces_an_earlier_field", "rejected_command_lines_applied_again", "schemas_with_names_of_schema_methods_or_odd_underscores", "schema_grown_after_enumeration", "paths_checked", "dotted_assignments_checked", "parsers_compared", "overrides_compared", "argv:empty",
             "argv:bool-on", "argv:bool-off", "argv:bool-both-switches", "argv:value", "argv:repeated", "argv:invalid", "ignore:str", "ignore:list",
             "state:mutated", "depth>=3")
 ASSUMPTIONS = ["enumeration is judged on root schemas / configurations; membership is demanded of stored fields only",
@@ -62,6 +62,15 @@ def generate(rng, ctx):
                     nd["key"] = rng.choice(free)
                     nd["odd_name"] = True
             schema["odd_names"] = True
+        if rng.random() < 0.3:
+            # a section inside a section of the same name (log.log.level)
+            for p0, nd in spec.walk(schema):
+                if nd["kind"] == "schema" and "[]" not in p0:
+                    kids = [ch for ch in nd["fields"] if ch["kind"] == "schema"]
+                    if kids and all(ch["key"] != nd["key"] for ch in nd["fields"]):
+                        rng.choice(kids)["key"] = nd["key"]
+                        schema["same_name_nesting"] = True
+                        break
         # build styles: sub-schemas created by attribute access / item lookup / dotted item paths, or built and used
         # on their own before being mounted (field paths must not depend on the order of construction)
         for p, nd in spec.walk(schema):
@@ -113,6 +122,12 @@ def generate(rng, ctx):
                         break
                 else:
                     continue
+                if want == "valid" and fam in SCALAR_STR and rng.random() < 0.15:
+                    # values that mean something to a command-line parser when it is configured that way
+                    for special in ("@" + v, "@alice", "=" + v, "+" + v, "/" + v):
+                        if model.accepts(nd, special, env)[0] is True:
+                            v = special
+                            break
                 if kind == "repeated" and rng.random() < 0.5:
                     argv += [_opt(p), "zzz-first"]
                 argv += [_opt(p), v]
@@ -135,7 +150,7 @@ def generate(rng, ctx):
             holder["fields"].append({"kind": "field", "key": "runmode", "family": "appmode",
                                      "params": {"modes": ["dev", "prod"], "create_helpers": True, "default": "prod"}})
             schema["helper_collision"] = True
-    return {"schema": schema, "state_ops": state_ops, "cmdlines": cmdlines}
+    return {"schema": schema, "state_ops": state_ops, "cmdlines": cmdlines, "via_schema_method": rng.random() < 0.4}
 
 
 def abbreviate(case):
@@ -199,6 +214,8 @@ def run(case, ctx, res):
     env = env_of(ctx)
     drv = history.Driver(ctx, res, case["schema"], env)
     root, schema, cfg = _expected_view(drv.root), drv.built.schema, drv.cfg
+    if case["schema"].get("same_name_nesting"):
+        res.count("sections_nested_in_a_section_of_the_same_name")
     if case["schema"].get("helper_collision"):
         res.count("mode_helper_replaces_an_earlier_field")
     if case["schema"].get("odd_names"):
@@ -291,7 +308,16 @@ def run(case, ctx, res):
     if case["state_ops"]:
         res.count("state:mutated")
     try:
-        parser = cc.generate_argparse_parser(schema)
+        if case.get("via_schema_method"):
+            import warnings
+
+            # the (deprecated) method of the schema is the same parser by another door
+            with warnings.catch_warnings():
+                warnings.simplefilter("ignore")
+                parser = schema.generate_argparse_parser()
+            res.count("parser_from_schema_method")
+        else:
+            parser = cc.generate_argparse_parser(schema)
     except Exception as exc:
         res.viol("M-parser", "raises", "generate_argparse_parser raised %r" % (exc,))
         return
